@@ -34,6 +34,7 @@ import OpenFGAVerif.Props.C24
 import OpenFGAVerif.Gen.CombinedReader
 import OpenFGAVerif.Gen.ReqScope
 import OpenFGAVerif.Props.ReqClone
+import OpenFGAVerif.Props.Misc3
 
 namespace OpenFGAVerif.C04
 open OpenFGAVerif.Vocab OpenFGAVerif.CheckV1 OpenFGAVerif.Model OpenFGAVerif.Model.CombinedReader
